@@ -75,6 +75,9 @@ def cases(draw):
             "route": draw(st.sampled_from([1, 1, 2, 0.5])),
             "switch_us": draw(st.sampled_from([5, 50, 500, 5000])),
             "naps": draw(st.lists(st.sampled_from([0, 0, 0, 0, 1, 2, 5]), min_size=8, max_size=8)),
+            # pause between deployment and the replication request: 0 is what `pydcop run` does (agents may not know
+            # yet where their neighbours are hosted, see the listed findings); 300 ms lets the run reach the repair
+            "settle_ms": draw(st.sampled_from([0, 300, 300])),
             "rng_seed": draw(st.integers(0, 10 ** 6))}
 
 
@@ -141,12 +144,13 @@ def run_case(case):
 
             def on_fatal(e, name=agt_def.name):
                 import traceback
-                frame = "?"
+                frames = []
                 for fs in traceback.extract_tb(e.__traceback__):
                     fn = fs.filename.replace("\\", "/")
-                    if "/pydcop/" in fn:
-                        frame = "%s:%s" % (fn.split("/pydcop/", 1)[1], fs.name)
-                agent_fatal.append((name, type(e).__name__, str(e)[:200], frame))
+                    if "/pydcop/" in fn and not fn.endswith("infrastructure/discovery.py"):
+                        frames.append("%s:%s" % (fn.split("/pydcop/", 1)[1], fs.name))
+                # innermost frames outside the discovery lookups: where the exception matters
+                agent_fatal.append((name, type(e).__name__, str(e)[:200], " < ".join(reversed(frames[-3:])) or "?"))
             self.on_fatal_error = on_fatal       # the hook Agent._run calls when its thread exits on an exception
 
         def removal(self, leaving):
@@ -224,6 +228,8 @@ def run_case(case):
                         phase[0] = "deploy"
                         o.deploy_computations()
                         phase[0] = "replication"
+                        if case.get("settle_ms"):
+                            time.sleep(case["settle_ms"] / 1000.0)
                         o.start_replication(k)
                         o.wait_ready()
                         phase[0] = "run"
@@ -236,7 +242,7 @@ def run_case(case):
             with contextlib.redirect_stdout(out_buf):
                 th = threading.Thread(target=drive, daemon=True)
                 th.start()
-                th.join(100 + 8 * len(case["events"]))
+                th.join(45 + 8 * len(case["events"]))
             orchestrator = holder.get("o")
             if drive_err:
                 raise drive_err[0]
@@ -345,3 +351,18 @@ def run_case(case):
             if not extra:
                 break
             time.sleep(0.05)
+
+
+def classify(case, out):
+    info = out.info or {}
+    if info.get("kind") == "agent-died" and info.get("exc") == "UnknownComputation":
+        frame = info.get("frame", "")
+        # (A) replication is requested / a replication request arrives before the agent's discovery has learnt where a
+        #     neighbour computation is hosted: replication_neighbors() lets UnknownComputation kill the agent thread
+        if "dist_ucs_hostingcosts.py:replication_neighbors" in frame:
+            return "C27-replication-before-neighbours-known"
+        # (B) Messaging retries, from a discovery callback, a parked message whose source computation is no longer
+        #     registered on the agent (it was orphaned / removed meanwhile): post_msg re-raises UnknownComputation
+        if "communication.py:post_msg < infrastructure/communication.py:_on_computation_registration" in frame:
+            return "C27-retry-of-parked-message-from-unknown-source"
+    return None
